@@ -118,6 +118,7 @@ def runBody (callFn : CallFn) (f : Fn) (upId : Option Nat) (cur : Option Int) :
         let st := if st.depth > 0 then st.flag .recoverIndirect else st
         runBody callFn f upId cur rest a (st.emit ⟨.Rnil, []⟩)
     | .ret => (a, st, .normal)
+    | .entryEnd => runBody callFn f upId cur rest a st      -- where the compiler sets up its frame: no meaning in Go
     | .set up v arg =>
       let t := target up upId a
       runBody callFn f upId cur rest a (st.setLoc t ((st.loc t).put v (evalArg l arg)))
